@@ -764,10 +764,16 @@ pub fn size_witnesses(tier: Tier) -> Vec<V> {
             v.push(V::dict(&[(format!("t{}", pattern_string(n, true)).as_str(), V::Marker)]));
         }
     }
-    // a special character at every byte offset up to 72 (last character, and followed by one more)
-    for k in 0..=72usize {
+    // a special character at every byte offset up to 320 and around 512, 1024, 4096, 8192, 65536
+    // (last character, and followed by one more): whatever the size of a scratch buffer, some offset
+    // puts the character — raw, or as the escape the writer chooses for it — across its end
+    let offsets: Vec<usize> = (0..=320usize).chain(508..=516).chain(1020..=1028).chain(4092..=4100).chain(8188..=8196).chain(if tier == Tier::Thorough { 65530..=65540 } else { 0..=0 }).collect();
+    for k in offsets {
         for c in ['é', '€', '😀', '"', '\\', '$', '`', '\n'] {
             for tail in ["", "b"] {
+                if k > 72 && !tail.is_empty() && k % 4 != 0 {
+                    continue;
+                }
                 let t = format!("{}{c}{tail}", "a".repeat(k));
                 v.push(V::Str(t.clone()));
                 if k % 8 == 0 || k % 8 == 7 {
